@@ -141,6 +141,9 @@ class Interp(ModelMixin):
             return ('bound', self._vk(v.recv, st), v.qual)
         if isinstance(v, LamV):
             return ('lambda', v.key, tuple((n, self._vk(x, st)) for n, x in v.captured), tuple(self._vk(x, st) for x in v.defaults))
+        if isinstance(v, PartV):
+            return ('partial', v.kind, self._vk(v.func, st) if v.func is not None else None, tuple(self._vk(x, st) for x in v.args),
+                    tuple((k, self._vk(x, st)) for k, x in v.kwargs))
         return v
 
     # ================================================================ calls
@@ -896,6 +899,23 @@ class Interp(ModelMixin):
         Returns (exits [(kind, state)], escapes [(ctl, state)])."""
         if isinstance(itval, GenV):
             return self._run_genv(itval, st, body, node)
+        if isinstance(itval, Ref) and itval.kind == 'list':
+            le0 = st.get(itval.sym)
+            if le0.kind == 'chain' and isinstance(le0.spec, tuple) and le0.spec and all(isinstance(p, tuple) and p and p[0] in ('fixed', 'list') for p in le0.spec) \
+                    and all(p[0] == 'fixed' or p[1] in st.heap for p in le0.spec):
+                # known elements, then the elements of another list, ...: the segments are iterated one after the other
+                cur, exits, escapes = [st], [], []
+                for part in le0.spec:
+                    nxt = []
+                    for s in cur:
+                        seg = TupleV(tuple(part[1])) if part[0] == 'fixed' else Ref('list', part[1])
+                        ex, esc = self.run_loop(seg, s, body, node, joiner=joiner)
+                        escapes.extend(esc)
+                        for kind, s2 in ex:
+                            (exits if kind == 'break' else nxt).append((kind, s2))
+                    cur = [s for _, s in self.dedupe(nxt)]
+                exits.extend(('exhausted', s) for s in cur)
+                return exits, escapes
         self.stats['loops'] += 1
         spec = self.iter_spec(itval, st, node)
         if isinstance(spec, Raise):
